@@ -322,8 +322,9 @@ def _bn_ref(xs, a):
     training = a["training"] or not a["track"]
     if a.get("history"):
         xa = _hist_base(xs[0].shape)
-        _, rm, rv = R.batch_norm(xa * 1.5 + 1.0, g, b, rm, rv, True, 1.0, a["eps"])          # cumulative average: factor 1/1
-        _, rm, rv = R.batch_norm(xa * 0.5 - 2.0, g, b, rm, rv, True, 0.5, a["eps"])          # factor 1/2
+        mom = a["momentum"]
+        _, rm, rv = R.batch_norm(xa * 1.5 + 1.0, g, b, rm, rv, True, 1.0 if mom is None else mom, a["eps"])          # cumulative average: factor 1/1
+        _, rm, rv = R.batch_norm(xa * 0.5 - 2.0, g, b, rm, rv, True, 0.5 if mom is None else mom, a["eps"])          # factor 1/2
     y, nm, nv = R.batch_norm(xs[0], g, b, rm, rv, training, a["momentum"] if a["momentum"] is not None else 0.0, a["eps"])
     return y
 
@@ -499,6 +500,9 @@ def grid(name, tier, rng):
                                         "second_forward": True})
                         if track and not training and xs[0] > 1:
                             out.append({"xshape": xs, "training": False, "affine": affine, "track": True, "momentum": None, "eps": 1e-5,
+                                        "history": True, "module_only": True})
+                            # momentum 0.0 is a number, not "no momentum": the running statistics stay where they are
+                            out.append({"xshape": xs, "training": False, "affine": affine, "track": True, "momentum": 0.0 if affine else 0.5, "eps": 1e-3,
                                         "history": True, "module_only": True})
     elif name == "dropout":
         for s in [[4, 5], [2, 3, 4], [20]]:
